@@ -24,7 +24,7 @@ ID = "C11"
 LEVEL = "proof"
 THEOREMS = ["mapPick_max", "mapPick_perm", "freqPick_maxcount", "topo_rows_distinct", "topo_count_correct",
             "topo_counts_sum", "topo_score_is_max", "topo_pointer_attains", "topo_pointers_distinct", "topo_sorted",
-            "archive_is_top_k"]
+            "freqCandidates_maxcount", "archive_is_top_k", "archive_top_ranked", "clampTop_pos"]
 BUDGET = {"quick": 55, "thorough": 420}
 MAX_JOBS = 12
 RULE = ("synthetic traces: 1..4 chains inserted into the results dict in shuffled order (chain 0 present), 0..12 entries "
@@ -222,17 +222,17 @@ def gen_malformed(rnd, which):
         for ch in c["chains"]:
             ch["entries"] = []
     elif which == "chain-0-empty":
-        c["chains"] = [{"num": 0, "entries": []}] + [ch for ch in c["chains"] if ch["num"] != 0]
-        if len(c["chains"]) == 1 or all(not ch["entries"] for ch in c["chains"]):
-            c["chains"].append({"num": 7, "entries": gen_synth(rnd)["chains"][0]["entries"]})
-            c["chains"] = [ch for ch in c["chains"]]
+        for ch in c["chains"]:
+            if ch["num"] == 0:
+                ch["num"] = 7
+        c["chains"].insert(rnd.randint(0, len(c["chains"])), {"num": 0, "entries": []})
     c["tops"] = [1, None]
     return c
 
 
 def cases(tier, rnd):
     out = []
-    n = 130 if tier == "quick" else 900
+    n = 500 if tier == "quick" else 3000
     for i in range(n):
         out.append(gen_synth(rnd, big=(tier == "thorough" and i % 3 == 0)))
     for i in range(6 if tier == "quick" else 24):
